@@ -46,6 +46,10 @@ def lit_value(l):
         return [vals[r * sh[1]:(r + 1) * sh[1]] for r in range(sh[0])]
     if lk == 'arr':
         return np.array(vals, dtype=float).reshape(tuple(sh))
+    if lk == 'arrF':       # same values, Fortran (column-major) memory layout
+        return np.asfortranarray(np.array(vals, dtype=float).reshape(tuple(sh)))
+    if lk == 'arrT':       # same values, a transposed view of a C-ordered array
+        return np.ascontiguousarray(np.array(vals, dtype=float).reshape(tuple(sh)).T).T
     if lk == 'arri':
         return np.array([int(v) for v in qs], dtype=np.int64).reshape(tuple(sh))
     raise ValueError(lk)
